@@ -235,7 +235,7 @@ func (s *Sim) opC04Relay() {
 	}
 	epoch := s.EpochStart()
 	if r.Chance("ops", 1, 5) && len(k.epochs) > 1 {
-		epoch = k.epochs[len(k.epochs)-1-r.Draw("ops", minInt(len(k.epochs), 4))] // late claim for a recent epoch
+		epoch = k.epochs[len(k.epochs)-1-r.Draw("ops", c04MinInt(len(k.epochs), 4))] // late claim for a recent epoch
 	}
 	allow := uint64(1000)
 	vq := k.query()
@@ -282,7 +282,7 @@ func (s *Sim) opC04Relay() {
 	}
 }
 
-func minInt(a, b int) int {
+func c04MinInt(a, b int) int {
 	if a < b {
 		return a
 	}
